@@ -83,3 +83,40 @@ theorem foldM' {α β} (xs : List α) (b : β) {f : β → α → M β} (I : β 
 end Post
 
 end Orq
+
+namespace Orq
+
+/-- final-state postcondition on normal return -/
+structure PostS {α} (m : M α) (Q : Cond → Prop) : Prop where
+  run : ∀ s a s', m s = (.ok a, s') → Q s'
+
+namespace PostS
+
+theorem throw {α} {Q : Cond → Prop} (e : Err) : PostS (M.throw e : M α) Q :=
+  ⟨fun s a s' heq => by
+    have : ((Except.error e : Except Err α), s) = (Except.ok a, s') := heq
+    cases this⟩
+
+theorem bind {α β} {m : M α} {f : α → M β} {Q : Cond → Prop} (hf : ∀ a, PostS (f a) Q) :
+    PostS (m >>= f) Q := by
+  constructor
+  intro s b s' heq
+  have heq' : M.bind' m f s = (.ok b, s') := heq
+  unfold M.bind' at heq'
+  cases hm : m s with
+  | mk r s1 =>
+    rw [hm] at heq'
+    cases r with
+    | ok a => exact (hf a).run s1 b s' heq'
+    | error e => cases heq'
+
+theorem modifySt {Q : Cond → Prop} {f : WState → WState} (h : ∀ c : Cond, Q { c with st := f c.st }) :
+    PostS (M.modifySt f) Q :=
+  ⟨fun s a s' heq => by
+    have : ((Except.ok () : Except Err Unit), ({ s with st := f s.st } : Cond)) = (Except.ok a, s') := heq
+    injection this with _ h2
+    rw [← h2]; exact h s⟩
+
+end PostS
+
+end Orq
